@@ -12,6 +12,26 @@ NOT_BUILT = "check not built yet in this round (claimed by DESIGN.md; " \
             "listed here until its static check exists and is exact)"
 
 CHECKS = {
+    "C10": {
+        "text": "NARROW: decides the clauses of the simulation contract "
+                "that are shapes of the code: at most 5 integration cycles "
+                "(counter increments once per round before the exit test; a "
+                "new round only through its False outcome), multi-row "
+                "results returned only under the finished flag with every "
+                "row passing _is_ok (exact definition of _is_ok checked), "
+                "control slots written only by controller(state, time of "
+                "the same row), the failure row and the time column, and "
+                "that j_from_ode allocates exactly as many cells as the "
+                "compute kernel stores (trip counts summed; polynomial "
+                "identity).",
+        "design_ref": "DESIGN.md section 4, C10",
+        "note": "Does NOT decide termination inside scipy's RK45, strict "
+                "monotonicity of float times, agreement with analytic "
+                "solutions, or the value/sign of J.",
+        "technique": "CFG must-pass-through / edge-restricted "
+                     "reachability + loop trip-count summation "
+                     "(polynomial identity)",
+    },
     "C07": {
         "text": "NARROW: decides non-negativity of the TTP error count "
                 "(counter starts at 0, only `+=`, each of the 13 increments "
